@@ -41,6 +41,10 @@ from .guards import TRUE, FALSE, f_and, f_or, f_not, show, atoms_of
 SPEC = os.path.join(os.path.dirname(os.path.dirname(os.path.abspath(__file__))), "spec", "accept_formulas.json")
 
 
+COLLECTION_OPS = ("push", "insert", "extend", "retain", "sort", "sort_by", "sort_by_key", "truncate", "clear", "remove",
+                  "dedup", "reverse", "pop", "drain", "append", "swap_remove", "sort_unstable_by_key")
+
+
 class AcceptExtract(guards.Extract):
     def __init__(self, F, body):
         self.F = F
@@ -77,6 +81,23 @@ class AcceptExtract(guards.Extract):
             b = self.place(n0["e"], env)
             if not b:
                 return None
+            # (s[a..])[..k] is s[a..(k+a)], (s[a..])[m..] is s[(m+a)..]: one spelling for a slice of a tail slice
+            mm = re.match(r"^(.*)\[(\d+)\.\.\]$", b)
+            if mm and isinstance(n0.get("i"), dict) and n0["i"].get("k") == "struct" and \
+                    "ops::Range" in (n0["i"].get("path") or n0["i"].get("t") or ""):
+                base0, a0 = mm.group(1), int(mm.group(2))
+                fs = {f["name"]: f["e"] for f in n0["i"].get("fields") or []}
+                kind = (n0["i"].get("path") or "").rsplit("::", 1)[-1]
+
+                def shift(e):
+                    v = lit_val(peel(e))
+                    if isinstance(v, int):
+                        return str(v + a0)
+                    return "(%s+%d)" % (self.value_text(e, env), a0)
+                if kind in ("Range", "RangeTo", "RangeFrom") and a0 > 0:
+                    st = shift(fs["start"]) if "start" in fs else str(a0)
+                    en = shift(fs["end"]) if "end" in fs else ""
+                    return "%s[%s..%s]" % (base0, st, en)
             i = n0.get("i")
             if guards.is_const_range(i):
                 return "%s[%s]" % (b, guards.text(i))
@@ -141,7 +162,13 @@ class AcceptExtract(guards.Extract):
         if k == "un":
             return x["op"] + self.value_text(x["e"], env)
         if k == "try":
-            return self.value_text(x["e"], env)
+            y = x["e"]
+            while isinstance(y, dict) and y.get("k") == "mcall" and y.get("m") in ("ok_or", "ok_or_else", "map_err"):
+                y = y["recv"]
+            sp = self.strip_affix(y, env)
+            if sp is not None:
+                return sp[1]
+            return "val(%s)" % self.value_text(x["e"], env)
         if k == "struct":
             return guards.text(x)
         if k == "index":
@@ -205,6 +232,13 @@ class AcceptExtract(guards.Extract):
             p = c["pat"]
             while p.get("k") == "pref":
                 p = p["pat"]
+            sp = self.strip_affix(c["init"], env)
+            if p.get("k") == "pts" and (p.get("path") or "").endswith("::Some") and sp is not None:
+                # `if let Some(rest) = x.strip_prefix("L")` is `x.starts_with("L")` with rest = x[len..]
+                atom_txt, rest_txt = sp
+                for q in guards_walk_binds(p):
+                    env[q["id"]] = ("text", rest_txt)
+                return self.atom(atom_txt)
             if p.get("k") == "pts" and (p.get("path") or "").endswith(("::Ok", "::Some")):
                 t = self.value_text(c["init"], env)
                 for q in guards_walk_binds(p):
@@ -220,6 +254,20 @@ class AcceptExtract(guards.Extract):
                             return f_and(self.atom("%s(%s)" % (kind, t)), self.atom("EQ(%s.%d,'%s')" % (t, j, qq.get("v"))))
                 return self.atom("%s(%s)" % (kind, t))
         return super().cond(c, env)
+
+    def strip_affix(self, e, env):
+        """(atom text, text of the remainder) for x.strip_prefix(lit) / x.strip_suffix(lit), else None"""
+        x = peel(e)
+        if isinstance(x, dict) and x.get("k") == "mcall" and x.get("m") in ("strip_prefix", "strip_suffix") \
+                and len(x.get("args") or []) == 1:
+            v = lit_val(peel(x["args"][0]))
+            if isinstance(v, str) and v:
+                base = self.value_text(x["recv"], env)
+                n = len(v.encode())
+                if x["m"] == "strip_prefix":
+                    return "STARTS_WITH(%s,'%s')" % (base, v), "%s[%d..]" % (base, n)
+                return "ENDS_WITH(%s,'%s')" % (base, v), "%s[..(%s.len()-%d)]" % (base, base, n)
+        return None
 
     def do_let(self, s, env):
         pat = s["pat"]
@@ -257,7 +305,13 @@ class AcceptExtract(guards.Extract):
         while isinstance(x, dict) and x.get("k") == "mcall" and x.get("m") in ("map_err", "map", "context"):
             x = x["recv"]
         if isinstance(x, dict) and x.get("k") == "mcall" and x.get("m") in ("ok_or", "ok_or_else"):
+            sp = self.strip_affix(x["recv"], env)
+            if sp is not None:
+                return self.atom(sp[0])
             return self.atom("SOME(%s)" % self.value_text(x["recv"], env))
+        sp = self.strip_affix(x, env)
+        if sp is not None:
+            return self.atom(sp[0])
         if isinstance(x, dict) and x.get("k") in ("call", "mcall"):
             f = callee(x)
             if x.get("k") == "mcall" and x.get("m") == "parse" and (x.get("ga") or []):
@@ -330,7 +384,8 @@ class AcceptExtract(guards.Extract):
             return
         if self.is_ok(x):
             self.accept.append(f_and(self.ctx, f_and(pc, self.try_atoms(x, env))))
-            self.stores.append((f_and(self.ctx, pc), self.store_repr((x.get("args") or [None])[0], env)))
+            self.stores.append((f_and(self.ctx, f_and(pc, self.try_atoms(x, env))),
+                                self.store_repr((x.get("args") or [None])[0], env)))
             return
         k = x.get("k")
         if k == "if":
@@ -470,6 +525,16 @@ class AcceptExtract(guards.Extract):
             l = peel(s["l"])
             if isinstance(l, dict) and l.get("k") == "local":
                 env[l["id"]] = ("text", self.value_text(s["r"], env))
+            elif isinstance(l, dict) and l.get("k") == "field":
+                # a component of a value under construction is set: part of what an accepting exit delivers
+                base = l
+                chain = []
+                while isinstance(base, dict) and base.get("k") == "field":
+                    chain.append(base["name"])
+                    base = peel(base["e"])
+                if isinstance(base, dict) and base.get("k") == "local" and base.get("name") != "self":
+                    self.stores.append((f_and(self.ctx, pc), "%s.%s=%s" % (
+                        base.get("name"), ".".join(reversed(chain)), self.value_text(s["r"], env))))
             return pc
         if k == "assignop":
             l = peel(s["l"])
@@ -478,6 +543,26 @@ class AcceptExtract(guards.Extract):
             return pc
         if k == "block":
             return self.branch(s, pc, env)
+        # a collection under construction is extended / pruned: part of what the function delivers
+        x0 = s
+        while isinstance(x0, dict) and x0.get("k") in ("semi", "stmt"):
+            x0 = x0.get("e") or x0.get("expr")
+        if isinstance(x0, dict) and x0.get("k") == "mcall" and x0.get("m") in COLLECTION_OPS:
+            rv = peel(x0.get("recv"))
+            root = rv
+            while isinstance(root, dict) and root.get("k") in ("field", "index"):
+                root = peel(root.get("e"))
+            if isinstance(root, dict) and root.get("k") == "local" and root.get("name") != "self" and \
+                    ("Vec<" in (x0.get("rt") or "") or "HashMap<" in (x0.get("rt") or "")):
+                args = []
+                for a in x0.get("args") or []:
+                    if isinstance(a, dict) and a.get("k") == "closure":
+                        args.append("|%s|" % guards.canon(self.closure_formula(a, env)))
+                    else:
+                        args.append(self.value_text(a, env))
+                if not re.match(r"^&(mut )?(std::string::)?String$", (x0.get("rt") or "").strip()):
+                    self.stores.append((f_and(self.ctx, pc), "%s.%s(%s)" % (self.value_text(rv, env) if rv is not root else root.get("name"),
+                                                                            x0["m"], ",".join(args))))
         # expression statement: `validate(x)?;` must succeed
         return f_and(pc, self.try_atoms(s, env))
 
@@ -528,11 +613,17 @@ class AcceptExtract(guards.Extract):
         if s.get("k") == "while":
             cond_f = sub.cond(s["cond"], e2)
         body_ok = sub.branch(s["body"], cond_f, e2)
+        for pc_, rep_ in sub.stores:
+            self.stores.append((f_and(self.ctx, pc), "loop[%s]{%s => %s}" % (
+                it_text, guards.canon(pc_) if len(atoms_of(pc_)) <= 10 else structural(pc_), rep_)))
         # Ok exits from inside the loop
         early = FALSE
         for a in sub.accept:
             early = f_or(early, a)
         body_f = body_ok if body_ok is not None else FALSE
+        if body_f == TRUE and early == FALSE:
+            # nothing in the body can fail or leave: the loop says nothing about acceptance
+            return pc
         atom = self.atom("LOOPOK[%s %s](%s)" % (s.get("k"), it_text, guards.canon(body_f) if len(atoms_of(body_f)) <= 10 else show(body_f)))
         if early != FALSE:
             self.accept.append(f_and(f_and(self.ctx, pc), self.atom("LOOPEXIT[%s](%s)" % (it_text, guards.canon(early) if len(atoms_of(early)) <= 10 else show(early)))))
@@ -668,7 +759,9 @@ def targets(F):
         is_pred = outp == "bool" and b["name"] in ("has_reject_codes", "has_return_codes", "is_cover_message",
                                                    "is_stp_message", "is_stp_compliant") and \
             (p.startswith("swift_message::") or p.startswith("messages::"))
-        if is_field_parse or is_util or is_hdr or is_parser or is_pred:
+        is_tok = p.startswith(("parser::swift_parser::apply_field50", "parser::sequence_parser::",
+                               "parser::swift_parser::parse_sequence", "parser::swift_parser::reconstruct_block4"))
+        if is_field_parse or is_util or is_hdr or is_parser or is_pred or is_tok:
             out.append(b)
     return out
 
@@ -688,7 +781,7 @@ def extract_all(F):
 FILTERS = {
     "parser": re.compile(r"^parser::(message_parser|field_extractor|utils)::"),
     "blocks": re.compile(r"^parser::swift_parser::SwiftParser::|^parser::utils::extract_block4"),
-    "tokeniser": re.compile(r"^parser::generated::|FieldConsumptionTracker|^parser::sequence_parser::|^parser::swift_parser::(find_field|apply_field50)"),
+    "tokeniser": re.compile(r"^parser::generated::|FieldConsumptionTracker|^parser::sequence_parser::|^parser::swift_parser::(find_field|apply_field50|parse_sequence|reconstruct_block4)"),
     "predicates": re.compile(r"::(has_reject_codes|has_return_codes|is_cover_message|is_stp_message|is_stp_compliant)$"),
     "amount": re.compile(r"amount|decimal|Field(19|32|33|34|36|37|60|61|62|64|65|71F|71G|90)"),
     "date": re.compile(r"parse_date|parse_time|parse_datetime|date_format|time_format|date_string|Field(11|13|30|32|60|61|62|64|65)"),
@@ -806,6 +899,47 @@ def extract_stores(F):
     return res
 
 
+def _split_top(t):
+    out, depth, cur, q = [], 0, "", None
+    for ch in t:
+        if q:
+            cur += ch
+            if ch == q:
+                q = None
+            continue
+        if ch in "'\"":
+            q = ch
+            cur += ch
+            continue
+        if ch in "([{":
+            depth += 1
+        elif ch in ")]}":
+            depth -= 1
+        if ch == "," and depth == 0:
+            out.append(cur)
+            cur = ""
+        else:
+            cur += ch
+    if cur:
+        out.append(cur)
+    return out
+
+
+def _pieces(entry):
+    """atoms of the condition and the value of one `cond => value` store entry (loop entries recursively)"""
+    cond, _, val = entry.partition(" => ")
+    atoms_txt, _, bits = cond.rpartition(":")
+    ps = {"A:" + a for a in _split_top(atoms_txt) if a}
+    ps.add("T:%s|%s" % (bits, len(ps)))
+    m = re.match(r"^loop\[(.*?)\]\{(.*)\}$", val, re.S)
+    if m and " => " in m.group(2):
+        ps.add("L:" + m.group(1))
+        ps |= _pieces(m.group(2))
+    else:
+        ps.add("V:" + val)
+    return ps
+
+
 def u7(rep, F, flt=None):
     r = rep.rule("U7", "stored value = reviewed reference: at every accepting exit of a parser the value it delivers "
                        "(each struct component / variant payload as an expression over the input: which slice, "
@@ -834,7 +968,42 @@ def u7(rep, F, flt=None):
             a = [x for x in sig if x not in spec[path]]
             o = [x for x in spec[path] if x not in sig]
             vocab = reference_vocabulary()
-            if any(decide.opaque(x, vocab) for x in a + o):
+            pa, po = set(), set()
+            for x in a:
+                pa |= _pieces(x)
+            for x in o:
+                po |= _pieces(x)
+            # a component assigned on both sides from different, fully resolved expressions is a definite difference
+            # whatever happened to the conditions around it
+            def assigns(entries):
+                d = {}
+                for e_ in entries:
+                    v_ = e_.partition(" => ")[2]
+                    m_ = re.match(r"^([\w]+(?:\.\w+)+)=(.*)$", v_)
+                    if m_:
+                        d.setdefault(m_.group(1), set()).add(m_.group(2))
+                return d
+            da, do_ = assigns(a), assigns(o)
+            definite = None
+            for tgt in set(da) & set(do_):
+                if len(da[tgt]) == 1 and len(do_[tgt]) == 1:
+                    va_, vo_ = list(da[tgt])[0], list(do_[tgt])[0]
+                    if va_ != vo_ and not decide.opaque(va_, vocab) and not decide.opaque(vo_, vocab):
+                        definite = (tgt, va_, vo_)
+            if definite is not None:
+                rep.add(Finding("U7", path, "store-changed",
+                                "%s now sets %s to `%s`; the reference sets it to `%s`"
+                                % (path, definite[0], definite[1][:200], definite[2][:200]), b["file"], b["line"]))
+                continue
+            pruning = [x for x in a if re.search(r"\.(retain|truncate|clear|remove|pop|drain|dedup|swap_remove)\(", x.partition(" => ")[2])]
+            if not o and pruning:
+                # everything the reference does is still done, and in addition the collection being delivered is
+                # pruned: elements the reference delivers can now be missing
+                rep.add(Finding("U7", path, "store-changed",
+                                "%s additionally prunes what it delivers: `%s`" % (path, pruning[0].partition(" => ")[2][:200]),
+                                b["file"], b["line"]))
+                continue
+            if any(decide.opaque(x, vocab) for x in (pa ^ po)):
                 r["undecided"] = r.get("undecided", 0) + 1
                 rep.notes.append("U7: %s: the delivered value differs from the reference only in terms the extractor "
                                  "cannot resolve: undecided, not reported" % path)
